@@ -164,6 +164,101 @@ def pivot_update(run, f, rule='R8.pivot'):
     return n
 
 
+class _Lin:
+    """a*i0 + b, so that index arithmetic on the target qubit stays evaluable."""
+    def __init__(self, a, b=0):
+        self.a, self.b = a, b
+
+    def _c(self, o):
+        return o if isinstance(o, _Lin) else (_Lin(0, o) if isinstance(o, int) else None)
+
+    def __add__(self, o):
+        o = self._c(o)
+        return _Lin(self.a + o.a, self.b + o.b) if o else NotImplemented
+    __radd__ = __add__
+
+    def __sub__(self, o):
+        o = self._c(o)
+        return _Lin(self.a - o.a, self.b - o.b) if o else NotImplemented
+
+    def __mul__(self, o):
+        return _Lin(self.a * o, self.b * o) if isinstance(o, int) else NotImplemented
+    __rmul__ = __mul__
+
+    def __eq__(self, o):
+        o = self._c(o)
+        return bool(o) and (self.a, self.b) == (o.a, o.b)
+
+    def __hash__(self):
+        return hash((self.a, self.b))
+
+    def __repr__(self):
+        return '%d*i0%+d' % (self.a, self.b) if self.b else '%d*i0' % self.a
+
+
+def diagonalize_mode(dg, obj, i0, causal):
+    """Execute the Pauli branch of diagonalize symbolically.  Returns (list of ('gate', generator label, qubits) taken in order,
+    list of argument tuples of the pauli_diagonalize1 calls) or (None, reason)."""
+    from .. import mini
+
+    def attr(nd, env, rec):
+        base = norm(nd.value)
+        if base == obj and nd.attr == 'g':
+            return 'G'
+        if base == obj and nd.attr == 'N':
+            return 'N'
+        if base in ('numpy', 'np', 'torch'):
+            return ('lib', nd.attr)
+        raise Undecidable('attribute ' + norm(nd))
+
+    def sub(nd, env, rec):
+        v = rec(nd.value)
+        if v == 'G' and isinstance(nd.slice, ast.Slice) and nd.slice.upper is None and nd.slice.step is None and nd.slice.lower is not None:
+            return ('slice', 'G', rec(nd.slice.lower))
+        raise Undecidable('subscript ' + norm(nd))
+    taken, calls = [], []
+
+    def call(nd, env, rec):
+        fn = norm(nd.func)
+        last = fn.split('.')[-1]
+        if last == 'isinstance':
+            cls = norm(nd.args[1])
+            return 'Pauli' in cls and 'Stabilizer' not in cls if norm(nd.args[0]) == obj else (_ for _ in ()).throw(Undecidable('isinstance'))
+        if last == 'identity_circuit':
+            return 'CIRC'
+        if last == 'pauli_diagonalize1':
+            calls.append([rec(a) for a in nd.args])
+            return ('g0', 'g1')           # two generator labels: order and completeness of the loop are visible
+        if last == 'arange' and len(nd.args) == 2:
+            return ('arange', rec(nd.args[0]), rec(nd.args[1]))
+        if last == 'Pauli' and len(nd.args) == 1:
+            return ('Pauli', rec(nd.args[0]))
+        if last == 'clifford_rotation_gate':
+            a = [rec(x) for x in nd.args]
+            kw = {k.arg: k.value for k in nd.keywords}
+            q = a[1] if len(a) > 1 else (rec(kw['qubits']) if 'qubits' in kw else None)
+            if not (isinstance(a[0], tuple) and a[0][0] == 'Pauli'):
+                raise Undecidable('generator of the rotation gate')
+            return ('gate', a[0][1], q)
+        if last == 'take' and isinstance(nd.func, ast.Attribute) and len(nd.args) == 1:
+            taken.append(rec(nd.args[0]))
+            return 'CIRC'
+        raise Undecidable('call ' + fn)
+
+    def on_expr(e, env, value):
+        value(e)
+    env = {obj: 'OBJ', i0: _Lin(1)}
+    if len(dg.posparams) > 2:
+        env[dg.posparams[2]] = causal
+    for p_ in dg.posparams[3:] + dg.kwonly:
+        env[p_] = 'P_' + p_
+    try:
+        mini.execute(dg.node, env, attr=attr, sub=sub, call=call, on_expr=on_expr)
+    except Undecidable as e:
+        return None, str(e)
+    return taken, calls
+
+
 def check(run):
     repo = run.repo
     eff = K.effects_of(repo)
@@ -172,30 +267,29 @@ def check(run):
         dispatch.check_function(run, repo, dg)
         effect.check_pure(run, eff, dg)
         obj, i0 = dg.posparams[0], dg.posparams[1]
-        loops = [(st, ctx) for st, ctx in walk(dg.node) if isinstance(st, ast.For)]
+        # the Pauli branch is executed by the checker's interpreter in both modes: which string goes to pauli_diagonalize1, and on
+        # which qubits every returned generator is turned into a rotation gate and taken, in list order
         seen = set()
-        for st, ctx in loops:
-            it = st.iter
-            if not (isinstance(it, ast.Call) and norm(it.func) == 'pauli_diagonalize1'):
+        for causal in (True, False):
+            taken, calls = diagonalize_mode(dg, obj, i0, causal)
+            if taken is None:
+                run.undecided('R10.gens', dg, 'causal=%s' % causal, 'the Pauli branch could not be interpreted: %s' % calls)
                 continue
-            causal, _ = __import__('pcverif.rules.guards', fromlist=['x']).entails(ctx.conds, [('causal', True)])
-            args = [norm(a).replace(' ', '') for a in it.args]
-            takes = [c for c in ast.walk(st) if isinstance(c, ast.Call) and isinstance(c.func, ast.Attribute) and c.func.attr == 'take']
-            ok_take = len(takes) == 1 and isinstance(takes[0].args[0], ast.Call) and norm(takes[0].args[0].func) == 'clifford_rotation_gate'
-            run.check(ok_take, 'R10.gens', dg, st.iter, 'every generator is wrapped by clifford_rotation_gate and taken, in list order')
-            if not ok_take:
+            mode = 'causal' if causal else 'global'
+            seen.add(mode)
+            run.check(len(calls) == 1 and all(isinstance(t, tuple) and len(t) == 3 and t[0] == 'gate' for t in taken) and [t[1] for t in taken] == ['g0', 'g1'],
+                      'R10.gens', dg, mode, 'every generator is wrapped by clifford_rotation_gate and taken, in list order (found %s)' % (taken,))
+            if len(calls) != 1:
                 continue
-            gargs = [norm(a).replace(' ', '') for a in takes[0].args[0].args]
-            g = st.target.id
+            args = calls[0]
             if causal:
-                seen.add('causal')
-                run.check(args == ['%s.g[2*%s:]' % (obj, i0)], 'R13.offset', dg, it, 'causal mode diagonalises the part of the string on qubits >= i0: slice [2*i0:] (found %s)' % args)
-                run.check(gargs[:2] == ['Pauli(%s)' % g, 'numpy.arange(%s,%s.N)' % (i0, obj)], 'R13.offset', dg, takes[0],
-                          'the sliced generators act on qubits arange(i0, N): the qubit offset i0 matches the column offset 2*i0 (found %s)' % gargs)
+                run.check(args == [('slice', 'G', _Lin(2))], 'R13.offset', dg, mode,
+                          'causal mode diagonalises the part of the string on qubits >= i0: slice [2*i0:] (found %s)' % (args,))
+                run.check(all(q == ('arange', _Lin(1), 'N') for _, _, q in taken), 'R13.offset', dg, mode + ' qubits',
+                          'the sliced generators act on qubits arange(i0, N): the qubit offset i0 matches the column offset 2*i0 (found %s)' % ([q for _, _, q in taken],))
             else:
-                seen.add('global')
-                run.check(args == ['%s.g' % obj, i0], 'R13.offset', dg, it, 'non-causal mode passes the whole string and the target qubit (found %s)' % args)
-                run.check(gargs[:1] == ['Pauli(%s)' % g] and not any(a.startswith('numpy.arange') for a in gargs), 'R13.offset', dg, takes[0], 'generators act on the whole register (found %s)' % gargs)
+                run.check(args == ['G', _Lin(1)], 'R13.offset', dg, mode, 'non-causal mode passes the whole string and the target qubit (found %s)' % (args,))
+                run.check(all(q is None for _, _, q in taken), 'R13.offset', dg, mode + ' qubits', 'generators act on the whole register (found %s)' % ([q for _, _, q in taken],))
         run.check(seen == {'causal', 'global'}, 'R10.gens', dg, 'both modes', 'causal and non-causal diagonalisation must both be present (found %s)' % sorted(seen))
         # state branch
         sts = [st for st, ctx in walk(dg.node) if isinstance(st, ast.Assign) and norm(st.targets[0]).endswith('.backward_map')]
